@@ -75,6 +75,8 @@ type Stats struct {
 	SlowBuilds  int            `json:"slow_builds"`
 	MaxMs       float64        `json:"max_ms"`
 	SimOps      int            `json:"sim_ops"`
+	SimMs       int64          `json:"sim_ms"`
+	turnSet     map[string]bool
 }
 
 func NewStats() *Stats {
@@ -101,6 +103,17 @@ func (s *Stats) note(w *World, r *Result) {
 		s.OpsSeen[o.Kind]++
 	}
 	s.SimOps += len(r.Ops)
+	s.SimMs += r.SimMs
+	if r.Turns != "" {
+		if s.turnSet == nil {
+			s.turnSet = map[string]bool{}
+		}
+		s.Probes["concurrent-executions-(several-processes)"]++
+		if !s.turnSet[r.Turns] {
+			s.turnSet[r.Turns] = true
+			s.Probes["distinct-interleavings-of-the-processes'-file-operations"]++
+		}
+	}
 	for k, v := range r.WorldUse {
 		s.WorldUse[k] += v
 	}
